@@ -897,7 +897,10 @@ PostAction ==
         /\ enabled' = [enabled EXCEPT ![s] = IF gone \/ act = "disable" THEN FALSE ELSE @]
         /\ Emit(applyEv \o r1.evs \o r2.evs \o (IF dies THEN DropEvs(s, FALSE) ELSE <<>>))
         \* a failing re-registration / unregistration of the post action is reported by this dispatch as well
-        /\ pc' = "ev" /\ dsp' = [dsp EXCEPT !.disp = NoSrc, !.pos = @ + 1, !.err = @ \/ ~r1.ok]
+        \* (variant: the error of the post action's re-registration leaves the dispatch at once, dropping the rest of the batch)
+        /\ IF ~r1.ok /\ "postaction_error_stops_batch" \in Variants
+           THEN pc' = "ret" /\ dsp' = [dsp EXCEPT !.disp = NoSrc, !.err = TRUE]
+           ELSE pc' = "ev" /\ dsp' = [dsp EXCEPT !.disp = NoSrc, !.pos = @ + 1, !.err = @ \/ ~r1.ok]
 
 EventsDone ==
   /\ pc = "ev" /\ dsp.pos > Len(dsp.batch) /\ dsp.disp = NoSrc
